@@ -134,6 +134,7 @@ def candEntries : List (String × Entry) :=
     ("badcap",     { cap := .badMax }),
     ("negfrom",    { fromNeg := true }),
     ("badkey",     { keyBad := true }),
+    ("heldkey",    { lockHeld := true }),
     ("valid",      {}),
     ("enginepanic", { engine := .panics }),
     ("engineerr",  { engine := .err .internal }) ]
